@@ -109,3 +109,11 @@ check("C04",
       level_text="exhaustive over the stated input product",
       level_note="transport double records calls; the mapping from returned errors to graphsync termination is checked in the transport harness",
       min_nontrivial=2)
+
+check("C05",
+      packages=["l2node"],
+      technique="exhaustive enumeration of (open-channel world x sender x message kind x transfer id) and of single-field mutations of restart requests on a real manager; legitimacy computed from authenticated sender and role",
+      rule="world = 4 channels with B (created push, created pull, received push, received pull with a colliding numeric id) in {requested, ongoing, paused, terminated}; sender in {B, stranger C, self} x 18 message kinds x every existing id + a fresh one, + restart-existing requests naming each channel / foreign ids; oracle: for every channel for which the message is not legitimate: datastore record byte-identical, no event, no transport call, no validator call naming it. Restart requests: valid + 7 single-field mutations x push/pull x same/new manager; restart-existing: 5 cases x push/pull; local role checks. distinct = distinct outcome classes.",
+      design_ref="DESIGN.md 5/C05",
+      level_text="exhaustive over the stated product",
+      level_note="graphsync-level role confusion (processExtension) is checked in the transport harness")
